@@ -7,7 +7,7 @@ BOUNDS = {
     "quick": "Line/Close length = Euclidean distance and its invariance under rotation (symbolic angle), translation, reflection, reversal and scaling by |s|; "
              "Shape._calc_lengths/length/point on paths of <=5 segments (moves and zero-length segments at every position) with segment lengths replaced by arbitrary "
              "non-negative solver variables: total, cumulative-interval law for all t in (0,1), point(0)/point(1), no division by zero; Arc.length circle shortcut for all "
-             "centres/radii/sweeps incl. coincident end points with a non-zero sweep; QuadraticBezier.length degenerate (collinear, doubling-back) branch against the closed form",
+             "centres/radii/sweeps incl. coincident end points with a non-zero sweep; QuadraticBezier.length degenerate (collinear, doubling-back) branch against the closed form; point(t) after reverse() of the path or of its subpath view (cached lengths)",
     "thorough": "paths of 6 segments",
 }
 OUTSIDE = ["'equals the true arc length to within the requested error' for non-degenerate quadratics (logarithm), cubics (adaptive recursion whose depth depends on the values) "
